@@ -15,17 +15,33 @@ ADD = ["+", "plus", "with"]
 SUB = ["-", "minus", "without"]
 MUL = ["*", "times", "of"]
 DIV = ["/", "over", "between"]
-CMP = ["is", "is not", "isnt", "isn't", "aint", "is greater than", "is higher than", "is bigger than", "is stronger than",
-       "is less than", "is lower than", "is smaller than", "is weaker than", "is as great as", "is as high as",
-       "is as big as", "is as strong as", "is as low as", "is as little as", "is as small as", "is as weak as",
-       "<", "<=", ">", ">=", "are", "was", "were"]
+CMP_OPS = {
+    "eq": ["is", "are", "was", "were"],
+    "ne": ["is not", "isnt", "isn't", "aint", "ain't", "are not", "wasnt", "weren't", "arent"],
+    "gt": ["is greater than", "is higher than", "is bigger than", "is stronger than", ">", "are greater than"],
+    "lt": ["is less than", "is lower than", "is smaller than", "is weaker than", "<", "was less than"],
+    "ge": ["is as great as", "is as high as", "is as big as", "is as strong as", ">=", "were as big as"],
+    "le": ["is as low as", "is as little as", "is as small as", "is as weak as", "<=", "are as low as"],
+}
+CMP = [x for v in CMP_OPS.values() for x in v]
 LOGIC = ["and", "or", "nor"]
 SAY = ["say", "shout", "whisper", "scream"]
 
 
 class Gen:
-    def __init__(self, rng, illtyped=False, focus=None):
+    def __init__(self, rng, illtyped=False, focus=None, sp=None, names=None, recase_names=True):
+        self.recase_names = recase_names
         self.r = rng
+        # spelling choices (aliases, case, separators) come from a separate stream, so the same
+        # structure seed with another spelling seed gives another spelling of the same tree
+        self.sp = sp if sp is not None else random.Random(rng.randrange(10 ** 9))
+        # position-wise renaming of the name pools (C15)
+        nm = names or {}
+        self.SIMPLE = nm.get("SIMPLE", SIMPLE)
+        self.COMMON = nm.get("COMMON", COMMON)
+        self.PROPER = nm.get("PROPER", PROPER)
+        self.FUNCS = nm.get("FUNCS", FUNCS)
+        self.PARAMS = nm.get("PARAMS", ["alpha", "beta", "gamma", "my soul", "the night"])
         self.ill = illtyped
         self.focus = focus or {}
         self.vars = {}        # name -> kind: num | str | arr | bool | any
@@ -43,9 +59,9 @@ class Gen:
 
     # ---- names
     def fresh_name(self):
-        pool = SIMPLE + COMMON + PROPER
-        cands = [n for n in pool if n not in self.vars and n not in self.funcs]
-        return self.r.choice(cands) if cands else self.r.choice(pool)
+        pool = self.SIMPLE + self.COMMON + self.PROPER
+        cands = [i for i, n in enumerate(pool) if n not in self.vars and n not in self.funcs]
+        return pool[self.r.choice(cands)] if cands else pool[self.r.randrange(len(pool))]
 
     def var_of(self, kinds):
         c = [n for n, k in self.vars.items() if k in kinds or k == "any"]
@@ -53,14 +69,17 @@ class Gen:
 
     def recase(self, name):
         # mentions of a name may differ in case (proper names keep capital initials)
-        if self.r.random() < 0.8:
+        if self.sp.random() < 0.8 or not self.recase_names:
             return name
         words = name.split(" ")
-        if name in PROPER:
-            return " ".join(w[0] + "".join(self.r.choice([c.lower(), c.upper()]) for c in w[1:]) for w in words)
-        if name in COMMON:
-            return " ".join(self.r.choice([w, w.upper(), w.capitalize()]) if i == 0 else self.r.choice([w, w.upper()]) for i, w in enumerate(words))
-        return self.r.choice([name, name.upper()]) if len(name) > 1 else name
+        if len(words) > 1 and all(w[:1].isupper() for w in words):      # proper
+            return " ".join(w[0] + "".join(self.sp.choice([c.lower(), c.upper()]) for c in w[1:]) for w in words)
+        if len(words) == 2:                                            # common: prefix + word
+            return self.sp.choice([words[0], words[0].upper(), words[0].capitalize()]) + " " + \
+                self.sp.choice([words[1], words[1].upper(), words[1].lower()])
+        if name[:1].isupper():                                         # capitalised simple name
+            return name[0] + "".join(self.sp.choice([c.lower(), c.upper()]) for c in name[1:])
+        return self.sp.choice([name, name.upper(), name.capitalize()]) if len(name) > 1 else name
 
     # ---- expressions
     def num_atom(self):
@@ -126,7 +145,7 @@ class Gen:
             args.append(a)
         s = args[0]
         for a in args[1:]:
-            s += self.r.choice(seps) + a
+            s += self.sp.choice(seps) + a
         return f"{self.recase(f)} taking {s}"
 
     def unary(self, depth):
@@ -143,13 +162,13 @@ class Gen:
         c = self.r.random()
         a = self.arith(depth + 1, kind)
         if c < 0.3:
-            op = self.r.choice(ADD)
+            op = self.sp.choice(ADD)
         elif c < 0.5:
-            op = self.r.choice(SUB)
+            op = self.sp.choice(SUB)
         elif c < 0.75:
-            op = self.r.choice(MUL)
+            op = self.sp.choice(MUL)
         else:
-            op = self.r.choice(DIV)
+            op = self.sp.choice(DIV)
         b = self.primary(kind, depth + 1)
         s = f"{a} {op} {b}"
         if self.r.random() < self.w("lists", 0.12):
@@ -162,15 +181,15 @@ class Gen:
         if c < 0.5:
             return self.primary("str")
         if c < 0.8:
-            return f"{self.primary('str')} {self.r.choice(ADD)} {self.any_atom()}"
-        return f"{self.primary('str')} {self.r.choice(MUL)} {self.r.choice(['0', '1', '2', '3'])}"
+            return f"{self.primary('str')} {self.sp.choice(ADD)} {self.any_atom()}"
+        return f"{self.primary('str')} {self.sp.choice(MUL)} {self.r.choice(['0', '1', '2', '3'])}"
 
     def cond(self, depth=0):
         c = self.r.random()
         a = self.arith(1) if not self.ill else self.arith(1, "any")
         if c < 0.6:
             b = self.arith(2) if self.r.random() < 0.8 else self.any_atom()
-            e = f"{a} {self.r.choice(CMP)} {b}"
+            e = f"{a} {self.sp.choice(CMP_OPS[self.r.choice(list(CMP_OPS))])} {b}"
         elif c < 0.75:
             e = self.any_atom()
         elif c < 0.85:
@@ -208,7 +227,7 @@ class Gen:
         elif c < 0.7:
             line = f"let {self.lhs(name)} be {e}"
         elif c < 0.85 and not new and self.vars.get(name) == "num":
-            op = self.r.choice(ADD + SUB + MUL + DIV)
+            op = self.sp.choice(self.r.choice([ADD, SUB, MUL, DIV]))
             e = self.arith(1)
             if self.r.random() < 0.3:
                 e += ", " + self.primary("num")
@@ -218,8 +237,8 @@ class Gen:
         else:
             lit = self.r.choice(NUM_LITS + STR_LITS + CONSTS[:6] + ["-3"])
             k = "num" if lit[0] in "-0123456789" else ("str" if lit[0] == '"' else "any")
-            line = f"{self.lhs(name)} {self.r.choice(['is', 'are', 'was', 'were'])} {lit}"
-            if self.r.random() < 0.3 and " " not in name:
+            line = f"{self.lhs(name)} {self.sp.choice(['is', 'are', 'was', 'were'])} {lit}"
+            if self.sp.random() < 0.3:
                 line = f"{self.lhs(name)}'s {lit}"
         self.vars[name] = k if not self.ill else "any"
         self.stat("assign")
@@ -240,7 +259,7 @@ class Gen:
             if ws[0] in ("nothing's",):
                 ws[0] = "a"
             txt = " ".join(ws).replace(" .", ".").replace(" ,", ",")
-            line = f"{self.lhs(name)} {self.r.choice(['is', 'was', 'are', 'were'])} {txt}"
+            line = f"{self.lhs(name)} {self.sp.choice(['is', 'was', 'are', 'were'])} {txt}"
             self.vars[name] = "num" if not self.ill else "any"
         else:
             txt = self.r.choice(["hello world", "  two spaces", "it's 5 o'clock, (somewhere)!", "ünïcödé", "x", "Say yeah", "1 2 3"])
@@ -252,7 +271,7 @@ class Gen:
     def s_say(self):
         e, _ = self.expr()
         self.stat("say")
-        return [f"{self.r.choice(SAY)} {e}"]
+        return [f"{self.sp.choice(SAY)} {e}"]
 
     def s_incdec(self):
         v = self.var_of(("num", "bool")) if not self.ill else (self.r.choice(list(self.vars)) if self.vars else None)
@@ -261,8 +280,8 @@ class Gen:
         n = self.r.randint(1, 3)
         self.stat("incdec")
         if self.r.random() < 0.5:
-            return [f"build {self.lhs(v)} up" + self.r.choice([", up", " up"]) * (n - 1)]
-        return [f"knock {self.lhs(v)} down" + self.r.choice([", down", " down"]) * (n - 1)]
+            return [f"build {self.lhs(v)} up" + self.sp.choice([", up", " up"]) * (n - 1)]
+        return [f"knock {self.lhs(v)} down" + self.sp.choice([", down", " down"]) * (n - 1)]
 
     def s_listen(self):
         self.stat("listen")
@@ -309,7 +328,7 @@ class Gen:
             name = self.fresh_name()
             self.vars[name] = "arr" if not self.ill else "any"
             return [f"put {self.lhs(arr)} into {self.lhs(name)}"]
-        return [f"{self.r.choice(SAY)} {self.lhs(arr)} at {self.r.choice(['0', '1', chr(34) + 'k' + chr(34), 'true'])}"]
+        return [f"{self.sp.choice(SAY)} {self.lhs(arr)} at {self.r.choice(['0', '1', chr(34) + 'k' + chr(34), 'true'])}"]
 
     def s_mutation(self):
         c = self.r.random()
@@ -321,7 +340,7 @@ class Gen:
             into = f" into {self.lhs(dest)}"
         if c < 0.35:
             v = self.var_of(("str",))
-            op = self.r.choice(["cut", "split", "shatter"])
+            op = self.sp.choice(["cut", "split", "shatter"])
             operand = self.recase(v) if v else (self.r.choice(STR_LITS) if into else None)
             if operand is None:
                 return self.s_assign()
@@ -335,7 +354,7 @@ class Gen:
             v = self.var_of(("arr",))
             if not v:
                 return self.s_array()
-            op = self.r.choice(["join", "unite"])
+            op = self.sp.choice(["join", "unite"])
             wth = self.r.choice(["", ' with ","', ' with "-"'])
             if dest:
                 self.vars[dest] = "any"
@@ -343,7 +362,7 @@ class Gen:
                 self.vars[v] = "any"
             return [f"{op} {self.recase(v)}{into}{wth}"]
         if c < 0.85:
-            op = self.r.choice(["cast", "burn"])
+            op = self.sp.choice(["cast", "burn"])
             v = self.var_of(("str", "num"))
             operand = self.recase(v) if v else (self.r.choice(STR_LITS + NUM_LITS) if into else None)
             if operand is None:
@@ -359,8 +378,9 @@ class Gen:
         v = self.var_of(("num",))
         if not v:
             return self.s_assign()
-        d = self.r.choice(["up", "down", "round", "around"])
-        if self.r.random() < 0.5:
+        d = self.r.choice(["up", "down", "round"])
+        d = self.sp.choice(["round", "around"]) if d == "round" else d
+        if self.sp.random() < 0.5:
             return [f"turn {d} {self.recase(v)}"]
         return [f"turn {self.recase(v)} {d}"]
 
@@ -388,10 +408,11 @@ class Gen:
         else:
             head = f"until {ctr} is as great as {n}"
         saved = dict(self.vars)
+        del self.vars[ctr]          # the body never touches the counter: loops terminate
         self.in_loop += 1
         body = [f"build {ctr} up"]
         if self.r.random() < 0.4:
-            kw = self.r.choice(["break", "break it down", "continue", "take it to the top"])
+            kw = self.sp.choice(self.r.choice([["break", "break it down"], ["continue", "take it to the top"]]))
             body += [f"if {self.cond()}", kw, ""]
         body += self.block(self.r.randint(1, 3))
         self.in_loop -= 1
@@ -400,15 +421,16 @@ class Gen:
 
     def s_flow(self):
         self.stat("flow")
-        return [self.r.choice(["break", "break it down", "continue", "take it to the top"])]
+        return [self.sp.choice(self.r.choice([["break", "break it down"], ["continue", "take it to the top"]]))]
 
     def s_func(self):
         if self.depth > 0 or self.in_func:
             return self.s_say()
         self.stat("func")
-        name = self.r.choice([f for f in FUNCS if f not in self.funcs and f not in self.vars] or FUNCS)
+        idxs = [i for i, f in enumerate(self.FUNCS) if f not in self.funcs and f not in self.vars] or list(range(len(self.FUNCS)))
+        name = self.FUNCS[self.r.choice(idxs)]
         ar = self.r.randint(1, 3)
-        params = self.r.sample(["alpha", "beta", "gamma", "my soul", "the night"], ar)
+        params = [self.PARAMS[i] for i in self.r.sample(range(len(self.PARAMS)), ar)]
         saved = dict(self.vars)
         for p in params:
             self.vars[p] = "num" if not self.ill else "any"
@@ -418,14 +440,14 @@ class Gen:
         c = self.r.random()
         if c < 0.8:
             e, _ = self.expr()
-            body += [self.r.choice([f"give back {e}", f"return {e}", f"give {e} back", f"send {e} back"])]
+            body += [self.sp.choice([f"give back {e}", f"return {e}", f"give {e} back", f"send {e} back", f"give {e}", f"send {e}"])]
         self.in_func -= 1
         self.vars = saved
         seps = [" and ", ", ", " & ", ", and ", " 'n' "]
         ps = params[0]
         for p in params[1:]:
-            ps += self.r.choice(seps) + p
-        return [f"{name} {self.r.choice(['takes', 'wants'])} {ps}"] + body + [""]
+            ps += self.sp.choice(seps) + p
+        return [f"{name} {self.sp.choice(['takes', 'wants'])} {ps}"] + body + [""]
 
     def s_callstmt(self):
         if not self.funcs or self.in_func:
@@ -475,12 +497,14 @@ class Gen:
         return "\n".join(lines) + "\n"
 
 
-def gen_programs(seed, count, illtyped=False, focus=None):
+def gen_programs(seed, count, illtyped=False, focus=None, spelling_seed=None, names=None, recase_names=True):
+    """spelling_seed: same seed + different spelling_seed = other spellings of the same trees"""
     rng = random.Random(seed)
+    sp_master = random.Random(seed * 7919 + 13 if spelling_seed is None else spelling_seed)
     out = []
     stats = {}
     for _ in range(count):
-        g = Gen(rng, illtyped=illtyped, focus=focus)
+        g = Gen(rng, illtyped=illtyped, focus=focus, sp=random.Random(sp_master.randrange(10 ** 9)), names=names, recase_names=recase_names)
         out.append(g.program())
         for k, v in g.stats.items():
             stats[k] = stats.get(k, 0) + v
